@@ -423,6 +423,15 @@ func execNewreq(ts []string) string {
 	if r0, err := construct(twin(a, 0)); err == nil {
 		_ = r0.Bytes()
 	}
+	// ... and what a caller did to an earlier request made with the same arguments (it re-targeted it: every exported field
+	// and every payload byte changed) is its own business: the next request made with these arguments is a new value
+	as := a
+	as.data, as.coils = append([]byte{}, a.data...), append([]bool{}, a.coils...) // the library may keep the caller's slice
+	if rs, err := construct(as); err == nil {
+		_ = rs.Bytes()
+		scribbleValue(reflect.ValueOf(rs))
+		_ = rs.Bytes()
+	}
 	r, err := construct(a)
 	if err != nil {
 		s := errStr(err)
@@ -444,6 +453,36 @@ func execNewreq(ts []string) string {
 		return "ENCODING-NOT-STABLE second=" + again + " " + out
 	}
 	return out
+}
+
+// scribbleValue changes everything a caller can change in a value it was given: exported integer and bool fields, the
+// bytes of exported slices
+func scribbleValue(v reflect.Value) {
+	defer func() { _ = recover() }()
+	switch v.Kind() {
+	case reflect.Ptr, reflect.Interface:
+		if !v.IsNil() {
+			scribbleValue(v.Elem())
+		}
+	case reflect.Struct:
+		for i := 0; i < v.NumField(); i++ {
+			if v.Type().Field(i).PkgPath == "" {
+				scribbleValue(v.Field(i))
+			}
+		}
+	case reflect.Uint8, reflect.Uint16, reflect.Uint32, reflect.Uint64, reflect.Uint:
+		if v.CanSet() {
+			v.SetUint(v.Uint() ^ 0xA5)
+		}
+	case reflect.Bool:
+		if v.CanSet() {
+			v.SetBool(!v.Bool())
+		}
+	case reflect.Slice:
+		for i := 0; i < v.Len(); i++ {
+			scribbleValue(v.Index(i))
+		}
+	}
 }
 
 func rtEntries(framing string, fc uint8) [][2]string {
